@@ -1,10 +1,14 @@
 import HexProofs.Manager.Fill
 import HexProps.C03
 import HexProofs.Framework.Fill
+import HexProofs.Manager2.FillReadingsSpec
 import HexProofs.Lib.IntInst
 /-
 C12 – Gap filling yields a contiguous series of flat, zero-volume candles.
-Proved for every float carrier `F`, at full strength: batch and every append schedule.
+Proved for every float carrier `F`, at full strength: batch and every append schedule – also for raw input candles that
+already carry indicator readings (`schedule_readings`), with the exact rule which candle keeps which entries (`entries`,
+`single_candle_bucket_keeps`: a bucket made of ONE raw candle keeps its entries, on the grid or not;
+`merged_and_inserted_carry_none`: a merged bucket and an inserted candle carry none).
 -/
 namespace Hex.C12
 open Hex Hex.C03
@@ -112,5 +116,54 @@ example : (match fillMissing (F := Int) 60
     | .ok zs => zs.map (fun c => c.ts)
     | .error _ => [])
     = [some 120, some 180, some 240, some 300] := by decide
+
+omit [PyF F] in
+/-- a C03 `RawStream` (stamped, unconverted, sorted; ANY readings on the candles) is a `RawR` -/
+theorem rawR_of {xs : List (Candle F)} (h : RawStream xs) : RawR xs := ⟨h.stamped, h.plain, h.sorted⟩
+
+/-- **Batch and every append schedule, input candles carrying arbitrary readings.** -/
+theorem schedule_readings (tf : Int) (htf : 0 < tf) (init : List (Candle F)) (chunks : List (List (Candle F)))
+    (h : RawStream (init ++ chunks.flatten)) :
+    runSchedule (cfgOf tf) init chunks
+        = .ok { cfg := cfgOf tf, candles := fillSpec tf (init ++ chunks.flatten) } ∧
+    Manager.init (cfgOf tf) (init ++ chunks.flatten)
+        = .ok { cfg := cfgOf tf, candles := fillSpec tf (init ++ chunks.flatten) } ∧
+    fillMissing tf (resample tf (init ++ chunks.flatten)) = .ok (fillSpec tf (init ++ chunks.flatten)) ∧
+    Contiguous tf (fillSpec tf (init ++ chunks.flatten)) ∧
+    Bucketed tf (fillSpec tf (init ++ chunks.flatten)) ∧
+    FilledFrom (resample tf (init ++ chunks.flatten)) (fillSpec tf (init ++ chunks.flatten)) ∧
+    (fillSpec tf (init ++ chunks.flatten)).head? = (resample tf (init ++ chunks.flatten)).head? ∧
+    (fillSpec tf (init ++ chunks.flatten)).getLast? = (resample tf (init ++ chunks.flatten)).getLast? :=
+  fill_schedule_readings tf htf init chunks (rawR_of h)
+
+/-- **Which candle keeps which readings**: by its stamp `L` – no raw candle in bucket `L`: an
+inserted fill candle, none; exactly one raw candle `c` (on the grid or not): `c` re-stamped, all
+its entries kept; two or more: the merge fold, none (`EntryRule`). -/
+theorem entries (tf : Int) (htf : 0 < tf) (xs : List (Candle F)) (h : RawStream xs)
+    (z : Candle F) (hz : z ∈ fillSpec tf xs) :
+    ∃ L, z.ts = some L ∧ L % tf = 0 ∧ EntryRule L z (bucketGroup tf xs L) :=
+  fillSpec_entries tf htf xs (rawR_of h) z hz
+
+theorem single_candle_bucket_keeps (tf : Int) (htf : 0 < tf) (xs : List (Candle F)) (h : RawStream xs)
+    (z : Candle F) (hz : z ∈ fillSpec tf xs) (L : Int) (hL : z.ts = some L) (c : Candle F)
+    (hg : bucketGroup tf xs L = [c]) :
+    z = { c with ts := some L } ∧ z.inds = c.inds ∧ z.subs = c.subs :=
+  fillSpec_single_keeps tf htf xs (rawR_of h) z hz L hL c hg
+
+theorem merged_and_inserted_carry_none (tf : Int) (htf : 0 < tf) (xs : List (Candle F)) (h : RawStream xs)
+    (z : Candle F) (hz : z ∈ fillSpec tf xs) (L : Int) (hL : z.ts = some L)
+    (hg : (bucketGroup tf xs L).length ≠ 1) : z.inds = [] ∧ z.subs = [] :=
+  fillSpec_other_none tf htf xs (rawR_of h) z hz L hL hg
+
+/-- non-vacuity: a two-bucket gap, three input candles carry `"X" ↦ 5` -/
+example : RawStream readingsDemo ∧ ¬ (∀ c ∈ readingsDemo, Plain c) :=
+  ⟨⟨by decide, by decide, by decide⟩, by decide⟩
+
+example : (runSchedule (cfgOf 60) [readingsDemo[0]]
+      [[readingsDemo[1], readingsDemo[2]], [], [readingsDemo[3]], [readingsDemo[4]]]).toOption.map
+      (fun m => m.candles.map showC)
+    = some [ ⟨some 120, 30, [], []⟩, ⟨some 180, 0, [], []⟩, ⟨some 240, 0, [], []⟩,
+             ⟨some 300, 5, [("X", some 5)], [("Y", some 7)]⟩, ⟨some 360, 3, [("X", some 5)], []⟩,
+             ⟨some 420, 1, [], []⟩ ] := by decide +kernel
 
 end Hex.C12
